@@ -35,6 +35,9 @@ def assoc_const(prog, impl_ty, name):
 
 
 def check(run):
+    ob_payload_decode_gate(run, "O11.8")
+    ob_coder_reset(run, "O11.9")
+    ob_validated_set(run, "O11.7")
     ob_padding_arithmetic(run, "O11.6")
     prog = run.program("lib")
 
@@ -318,3 +321,135 @@ def ob_padding_arithmetic(run, oid):
     errs = [(bb, sp) for (bb, rv, sp, dst) in b.aggregates("core::result::Result", "Err") if dst["l"] == 0]
     g = any(a[0] == "lt" and a[2] is True and K.const_eval(a[1][0]) == mx and K.mentions_call(a[1][1], "len") for (bb, sp) in errs for a in G.guard_atoms(b, bb, prog))
     o.check(g, "shred|gate=MAX_DATA_PER_SLICE", "payloads are refused exactly above MAX_DATA_PER_SLICE (%d), the bound the arithmetic was evaluated for" % mx, b.span)
+
+
+def ob_validated_set(run, oid):
+    """what ReedSolomonCoder::deshred relies on (its expect()s): ValidatedShreds::try_new admits a set only if every shard has one
+    common size that is non-zero and even, and every shred sits at the position of its kind"""
+    from . import termeval as TE
+    prog = run.program("lib")
+    o = run.ob(oid, "ValidatedShreds::try_new admits only sets whose shards share one size that is even and non-zero, kinds matching positions",
+               "the Reed-Solomon decoder rejects empty / odd / unequal shards and wrong indices: deshred treats that as impossible (expect), so a leader-signed "
+               "slice of such shreds would panic the node instead of being reported as invalid", floor=4)
+    b = prog.body(SH + "validated_shreds::ValidatedShreds::try_new")
+    if b is None:
+        o.missing("ValidatedShreds::try_new")
+        return
+    somes = [(bb, sp) for (bb, rv, sp, dst) in b.aggregates("core::option::Option", "Some") if dst["l"] == 0]
+    if len(somes) != 1:
+        o.fail("try_new|single-some", "expected one Some(..) result", b.span)
+        return
+    bb, sp = somes[0]
+    atoms = G.guard_atoms(b, bb, prog)
+    # size conditions: atoms over `<any shred>.payload().data.len()` and constants only
+    size_atoms = []
+    for a in atoms:
+        if a[0] not in ("eq", "lt", "bool"):
+            continue
+        ts = list(a[1])
+        if all(K.mentions_call(x, "len") or K.const_eval(x) is not None for x in ts) and any(K.mentions_call(x, "len") for x in ts) and not (
+                a[0] == "eq" and all(K.mentions_call(x, "len") for x in ts)):
+            size_atoms.append(a)
+
+    def env_for(n):
+        def env(t):
+            if isinstance(t, tuple) and t and t[0] == "call" and t[1].rsplit("::", 1)[-1] == "len":
+                return n
+            return None
+        return env
+    try:
+        acc = [n for n in range(0, 41) if all(TE.ev_atom(a[0], a[1], env_for(n)) == a[2] for a in size_atoms)]
+        o.check(bool(size_atoms) and acc == [n for n in range(0, 41) if n > 0 and n % 2 == 0], "try_new|size-even-nonzero",
+                "the common shard size is accepted exactly when it is non-zero and even (evaluated for sizes 0..40)", sp, {"accepted": acc[:8], "conditions": G.atoms_show(size_atoms)})
+    except TE.Unknown as e:
+        run.notes.append("O11.7: size condition outside the evaluator's vocabulary (%s): not decided" % e)
+        o.ok("try_new|size-even-nonzero|not-decided", "size conditions not evaluable: not decided (no alarm)", sp, nontrivial=False)
+    nones = [(nb, nsp, G.guard_atoms(b, nb, prog)) for (nb, rv, nsp, dst) in b.aggregates("core::option::Option", "None") if dst["l"] == 0]
+    uneq = [x for x in nones if any(a[0] == "eq" and a[2] is False and all(K.mentions_call(t, "len") for t in a[1]) for a in x[2])]
+    o.check(bool(uneq), "try_new|sizes-equal", "a shred whose size differs from the common size => None", uneq[0][1] if uneq else b.span)
+    # kind vs position: a disjunction, so no single edge dominates the None - look at the switches on is_data() / is_coding()
+    # and require that a failing test leads straight to a None result
+    none_bbs = set(x[0] for x in nones)
+    es = b.edges()
+
+    def leads_to_none(bb0, depth=0):
+        if bb0 in none_bbs:
+            return True
+        if depth > 4:
+            return False
+        t = b.blocks[bb0]["term"]
+        if t["k"] == "goto":
+            return leads_to_none(t["t"], depth + 1)
+        return False
+    hit = {"is_data": False, "is_coding": False}
+    for (s_, dterm, dty) in b.switches():
+        for nm in hit:
+            if K.mentions_call(dterm, nm):
+                if any(leads_to_none(e[1]) for e in es if e[0] == s_):
+                    hit[nm] = True
+    o.check(all(hit.values()), "try_new|kind-matches-position", "a shred whose kind (data / coding) contradicts its position => None", b.span, {"tests_found": hit})
+    ctor = [d for d, bd in prog.bodies.items() if not bd.generated for x in bd.aggregates(SH + "validated_shreds::ValidatedShreds")]
+    o.check(set(K.root_fn(d) for d in ctor) <= {SH + "validated_shreds::ValidatedShreds::try_new"}, "ValidatedShreds|constructed-only-in-try_new", "no other construction site", "",
+            {"sites": [fshort(d) for d in ctor]})
+
+
+def ob_payload_decode_gate(run, oid):
+    """SlicePayload::try_from (last step of every deshred): which lengths are admitted to the exact decoder"""
+    from . import termeval as TE
+    from . import C19
+    prog = run.program("lib")
+    o = run.ob(oid, "SlicePayload::try_from hands every length from the smallest encodable payload up to MAX_DATA_PER_SLICE to the exact decoder",
+               "a length gate that is off by one refuses the empty slice (or the maximum one) after a successful reconstruction: 'including the empty and the maximum payload' fails", floor=2)
+    bs = [bd for d, bd in prog.bodies.items() if d.endswith("TryFrom<&[u8]>>::try_from") and "SlicePayload" in d and not bd.generated]
+    if len(bs) != 1:
+        o.missing("<SlicePayload as TryFrom<&[u8]>>::try_from")
+        return
+    b = bs[0]
+    dec = [c for c in b.calls() if c.name.endswith("deserialize_exact")]
+    if len(dec) != 1:
+        o.fail("try_from|decode-site", "expected one deserialize_exact call", b.span)
+        return
+    mx = prog.const_int(SH + "MAX_DATA_PER_SLICE")
+    sc = C19.SizeCalc(prog, C19.wire_consts(prog), None)
+    mn = sc.min_size(A + "types::slice::SlicePayload")
+    atoms = [a for a in G.guard_atoms(b, dec[0].bb, prog) if a[0] in ("lt", "eq") and any(K.mentions_call(x, "len") for x in a[1])]
+
+    def env_for(n):
+        def env(t):
+            if isinstance(t, tuple) and t and t[0] == "call" and t[1].rsplit("::", 1)[-1] == "len" and K.mentions_arg(b, t, 1):
+                return n
+            return None
+        return env
+    try:
+        rejected = [n for n in range(mn, mx + 1) if not all(TE.ev_atom(a[0], a[1], env_for(n)) == a[2] for a in atoms)]
+        over = [n for n in (mx + 1, mx + 2, 2 * mx) if all(TE.ev_atom(a[0], a[1], env_for(n)) == a[2] for a in atoms)]
+        o.check(not rejected, "try_from|admits-all-encodable-lengths", "every length %d..=%d reaches the decoder (min = None parent + empty data)" % (mn, mx), dec[0].span,
+                {"first_rejected": rejected[:3], "conditions": G.atoms_show(atoms)})
+        o.check(not over, "try_from|refuses-oversize", "lengths above MAX_DATA_PER_SLICE never reach the decoder", dec[0].span, {"admitted": over})
+    except TE.Unknown as e:
+        run.notes.append("O11.8: length condition outside the evaluator's vocabulary (%s): not decided" % e)
+        o.ok("try_from|not-decided", "length conditions not evaluable: not decided (no alarm)", dec[0].span, nontrivial=False)
+        o.ok("try_from|not-decided-2", "length conditions not evaluable: not decided (no alarm)", dec[0].span, nontrivial=False)
+
+
+def ob_coder_reset(run, oid):
+    prog = run.program("lib")
+    o = run.ob(oid, "the Reed-Solomon encoder / decoder is reconfigured for the shard size of THIS slice on every call, unconditionally",
+               "a coder instance is reused across slices of different sizes (shredder pool): a skipped reset leaves it configured for the previous size and the next add_*_shard fails (expect)", floor=4)
+    for fn, callee, size_src in (("shred", "ReedSolomonEncoder::reset", "len"), ("deshred", "ReedSolomonDecoder::reset", "any_shred")):
+        b = prog.body(RS + "::" + fn)
+        if b is None:
+            o.missing("ReedSolomonCoder::" + fn)
+            continue
+        rs = [c for c in b.calls() if c.name.endswith(callee)]
+        if len(rs) != 1:
+            o.fail("%s|reset|count" % fn, "expected exactly one %s, found %d" % (callee, len(rs)), b.span)
+            continue
+        c = rs[0]
+        rec = [lambda a: a[0] == "lt" and (K.mentions_call(a[1][0], "shred_count") or K.mentions_call(a[1][1], "len") or K.mentions_call(a[1][0], "len"))]
+        extra = D.extra_guards(prog, b, c.bb, rec)
+        o.check(not extra, "%s|reset|unconditional" % fn, "reset runs on every call that passes the size / count gate", c.span, {"extra": G.atoms_show(extra)})
+        users = [x for x in b.calls() if x.name.rsplit("::", 1)[-1] in ("add_original_shard", "add_recovery_shard")]
+        fam_users = users or [x for fb in prog.family(RS + "::" + fn) for x in fb.calls() if x.name.rsplit("::", 1)[-1] in ("add_original_shard", "add_recovery_shard")]
+        o.check(bool(fam_users) and all(b.dominates(c.bb, x.bb) for x in users), "%s|reset|before-shards" % fn, "reset dominates every add_*_shard", c.span)
+        o.check(K.mentions_call(b.operand_term(c.args[3]), size_src), "%s|reset|size-of-this-slice" % fn, "the shard size passed to reset is computed from this call's input", c.span)
